@@ -39,6 +39,13 @@ func FBP(reftree *tree.Tree, boottrees <-chan tree.Trees, cpus int, sup *Support
 		}
 	}
 	var wg sync.WaitGroup
+	// err is shared by all the workers
+	var errmux sync.Mutex
+	seterr := func(e error) {
+		errmux.Lock()
+		err = e
+		errmux.Unlock()
+	}
 	for cpu := 0; cpu < cpus; cpu++ {
 		wg.Add(1)
 		go func(cpu int) {
@@ -50,15 +57,15 @@ func FBP(reftree *tree.Tree, boottrees <-chan tree.Trees, cpus int, sup *Support
 					break
 				}
 				if treeV.Err != nil {
-					err = treeV.Err
+					seterr(treeV.Err)
 					return
 				} else {
 					if inerr = treeV.Tree.ReinitIndexes(); inerr != nil {
-						err = inerr
+						seterr(inerr)
 						return
 					}
 					if inerr = reftree.CompareTipIndexes(treeV.Tree); inerr != nil {
-						err = inerr
+						seterr(inerr)
 						return
 					}
 					atomic.AddInt32(&ntrees, 1)
@@ -66,7 +73,7 @@ func FBP(reftree *tree.Tree, boottrees <-chan tree.Trees, cpus int, sup *Support
 					for i, e2 := range edges2 {
 						if !e2.Right().Tip() {
 							if inerr = edgeIndex.PutEdgeValue(e2, i, e2.Length()); inerr != nil {
-								err = inerr
+								seterr(inerr)
 								return
 							}
 						}
